@@ -298,6 +298,12 @@ pub fn evaluate_cases(ctx: &Ctx, rep: &mut Report, cases: &[Case], hash_only: bo
         let text = format!("{} {}{} {}", c.entry.name(), names(&c.derived).join(","), c.ts.shared_arg.map(|a| format!(", {a}")).unwrap_or_default(), items[i]);
         let has_attr = c.ts.variants.iter().any(|v| v.fields.iter().any(|f| !f.combo.is_plain()));
         let detail = |extra: serde_json::Value| json!({"gen": c.gen, "tier": ctx.tier.name(), "vector": c.vector, "entry": c.entry.name(), "derived": names(&c.derived), "item": items[i], "observation": extra});
+        if !r.compiled() && refused_by_eq_assertion(&c.ts, &c.derived) {
+            rep.case(&text, false);
+            rep.add("refused_by_the_Eq_assertion_as_C17_demands(NaN-like partial_ord key under ==)", 1);
+            rep.outcome("refused-by-design:C17");
+            continue;
+        }
         if !r.compiled() {
             rep.case(&text, false);
             rep.add("unobservable_rustc_rejects_accepted_expansion(C20)", 1);
